@@ -64,7 +64,18 @@ impl Src {
                 t.insert("d".into(), Node::dir(T0 + 110));
                 t.insert("d/g".into(), Node::file(b"ggggggg", T0 + 111));
             }
+            3 => {
+                // same bytes as value A of /f: duplicate content inside one tree
+                t.insert("d".into(), Node::dir(T0 + 110));
+                t.insert("d/g".into(), Node::file(b"aaaaa", T0 + 112));
+            }
             _ => {}
+        }
+        if self.fmode == 2 {
+            // metadata-only change of a directory
+            if let Some(d) = t.get_mut("d") {
+                d.mode = 0o700;
+            }
         }
         match self.big {
             1 => {
@@ -117,7 +128,7 @@ pub fn set_menu(full: bool) -> Vec<(u8, u8)> {
         for f in 0..=4 {
             v.push((0, f));
         }
-        for g in 0..=2 {
+        for g in 0..=3 {
             v.push((1, g));
         }
         for b in 0..=2 {
@@ -128,6 +139,7 @@ pub fn set_menu(full: bool) -> Vec<(u8, u8)> {
         }
         v.push((4, 0));
         v.push((4, 1));
+        v.push((4, 2));
         v
     } else {
         vec![(0, 2), (0, 3), (0, 4), (0, 0), (1, 2), (2, 2), (4, 1)]
